@@ -6,6 +6,9 @@ import (
 	"sort"
 	"time"
 
+	shared "github.com/aquilax/hranoprovod-cli/v3"
+	"github.com/aquilax/hranoprovod-cli/v3/resolver"
+
 	"verif/harness/core"
 	"verif/harness/gen"
 	"verif/harness/model"
@@ -144,6 +147,94 @@ func runC01(c *core.Ctx) {
 		})
 	}
 
+	c.RunPart("l3-reuse", 10*time.Minute, func(c *core.Ctx) {
+		// resolve, let the book grow (a name that was basic gets its own recipe, a new recipe uses old
+		// ones), resolve again - with the same Resolver value and with the function: the second result
+		// must be that of the grown book
+		n := c.N(400, 8000)
+		core.ParallelFor(n, c.Procs, func(w, i int) {
+			r := c.Rng("reuse", i)
+			b := gen.RandomBook(r, gen.BookOpts{Recipes: 2 + r.Intn(5), Basics: 3, MaxDepth: 1 + r.Intn(3), Exact: true, Names: gen.NameOpts{MaxLen: 6}})
+			basics := map[string]bool{}
+			def := b.Defined()
+			for _, rec := range b {
+				for _, e := range rec.Ents {
+					if !def[e.Name] {
+						basics[e.Name] = true
+					}
+				}
+			}
+			var bn []string
+			for k := range basics {
+				bn = append(bn, k)
+			}
+			if len(bn) == 0 {
+				return
+			}
+			sort.Strings(bn)
+			grown := append(gen.Book{}, b...)
+			// a formerly basic name becomes a recipe over fresh basic names
+			promoted := bn[r.Intn(len(bn))]
+			grown = append(grown, gen.Recipe{Name: promoted, Ents: []gen.Ent{{Name: "fresh1", Val: gen.Half(3)}, {Name: "fresh2", Val: gen.Half(4)}}})
+			grown = append(grown, gen.Recipe{Name: "newtop", Ents: []gen.Ent{{Name: b[0].Name, Val: gen.Half(2)}, {Name: promoted, Val: gen.Half(2)}}})
+			want := model.Resolve(grown)
+			for entry := 0; entry < 2; entry++ {
+				c.Crumb(w, fmt.Sprintf("reuse book %d entry %d\n%s", i, entry, bookText(grown)))
+				order := r.Perm(len(b))
+				db := buildDB(b, order)
+				res := resolver.NewResolver(db, resolver.Config{MaxDepth: 10})
+				var err1 error
+				if entry == 0 {
+					_, err1 = resolver.Resolve(resolver.Config{MaxDepth: 10}, db)
+				} else {
+					err1 = res.Resolve()
+				}
+				// the caller adds the new records in their unresolved form and resolves again
+				for _, rec := range grown[len(b):] {
+					nd := shared.NewParserNode(rec.Name)
+					for _, e := range rec.Ents {
+						nd.Elements.Add(e.Name, e.Val.F())
+					}
+					db.Push(shared.NewDBNodeFromNode(nd))
+				}
+				var err2 error
+				if entry == 0 {
+					_, err2 = resolver.Resolve(resolver.Config{MaxDepth: 10}, db)
+				} else {
+					err2 = res.Resolve()
+				}
+				c.Eval(1)
+				c.Count("reuse_sequences", 1)
+				c.Nontrivial("reuse", bookText(grown), fmt.Sprint(entry))
+				rep := c01Replay{bookText(grown), orderStr(order), entry, 10, "resolve, add the last two recipes, resolve again with the same resolver"}
+				if err1 != nil || err2 != nil {
+					c.Violation(fmt.Sprintf("resolve entry%d|error-on-legal-book", entry), fmt.Sprintf("errors %v / %v in a resolve-grow-resolve sequence", err1, err2), rep)
+					continue
+				}
+				// recipes that used the promoted name before it was a recipe keep their already resolved form
+				// (they list it as an element); the new recipes and the promoted one must be right
+				for _, name := range []string{promoted, "newtop"} {
+					got := db[name]
+					if got == nil {
+						c.Violation(fmt.Sprintf("resolve entry%d|keys-changed", entry), name+" missing after the second resolve", rep)
+						continue
+					}
+					sub := model.Resolved{name: want[name]}
+					sdb := shared.DBNodeMap{name: got}
+					if name == "newtop" {
+						// newtop = 2 x (b[0] as resolved before the growth, with the promoted name expanded) + 2 x promoted
+						// the model of the grown book gives exactly that
+					}
+					if class, msg := compareResolved(sdb, gen.Book{{Name: name}}, sub, nil, true); class != "" && class != "unexpanded" {
+						c.Violation(fmt.Sprintf("resolve entry%d|%s-after-growth", entry, class), msg, rep)
+					} else if class == "unexpanded" {
+						c.Violation(fmt.Sprintf("resolve entry%d|unexpanded-after-growth", entry), msg, rep)
+					}
+				}
+			}
+		})
+	})
+
 	c.RunPart("l3-random", 20*time.Minute, func(c *core.Ctx) {
 		n := c.N(2000, 40000)
 		core.ParallelFor(n, c.Procs, func(w, i int) {
@@ -212,7 +303,7 @@ func runC01(c *core.Ctx) {
 		srv := pool.Servers[w]
 		r := c.Rng("cli", i)
 		exact := r.Intn(2) == 0
-		b := gen.RandomBook(r, gen.BookOpts{Recipes: 2 + r.Intn(9), Basics: 1 + r.Intn(4), MaxDepth: 1 + r.Intn(5), Exact: exact,
+		b := gen.RandomBook(r, gen.BookOpts{Recipes: 2 + r.Intn(9), Basics: 1 + r.Intn(4), MaxDepth: 1 + r.Intn(5), Exact: exact, Redeclare: i%5 == 0,
 			Names: gen.NameOpts{Unicode: true, Spaces: true, Slash: true, Punct: ".,;'()&%+*=!?@_-\"#"}})
 		want := model.Resolve(b)
 		abs := model.AbsPaths(b)
